@@ -330,3 +330,70 @@ pub fn record(args: &[String], out: &mut Out) {
     }
     out.add("events", events);
 }
+
+/// C08 part (c): from_tx -> extract_tx on every well-formed transaction shape of the Wire family.
+pub fn roundtrip(args: &[String], out: &mut Out) {
+    let cases = read_ndjson(&arg(args, "--cases").expect("--cases"));
+    let seed = arg_u64(args, "--seed", 1);
+    let mut classes = std::collections::BTreeSet::new();
+    for (ci, c) in cases.iter().enumerate() {
+        if !c["wf"].as_bool().unwrap() {
+            out.count("skipped_ill_formed");
+            continue;
+        }
+        out.count("evaluations");
+        let cls = crate::wire::tx_class(&c["tx"]);
+        classes.insert(cls.clone());
+        let mut r = rng(seed, 0x0800_0000 + ci as u64);
+        let ctx = crate::wire::fill_tx(&c["tx"], &mut r);
+        let case = json!({"class": cls, "case_index": ci, "seed": seed});
+        let expl_nonce = c["expl_nonce"].as_bool().unwrap();
+        let res = guard(|| {
+            let mut bad: Vec<(String, String)> = vec![];
+            let tx = crate::wire::build_tx(&c["tx"], &ctx);
+            let pset = Pset::from_tx(tx.clone());
+            match pset.extract_tx() {
+                Err(e) => bad.push((format!("C08/roundtrip/extract-error/{}", cls), e.to_string())),
+                Ok(back) => {
+                    if back != tx || elements::encode::serialize(&back) != elements::encode::serialize(&tx) {
+                        // name the first field that differs
+                        let mut what = String::from("?");
+                        if back.version != tx.version { what = "version".into(); }
+                        else if back.lock_time != tx.lock_time { what = "lock_time".into(); }
+                        else {
+                            for (k, (a, b)) in back.input.iter().zip(tx.input.iter()).enumerate() {
+                                if a != b {
+                                    what = if a.previous_output != b.previous_output { "input.previous_output" } else if a.is_pegin != b.is_pegin {
+                                        if b.previous_output.vout == 0xffff_ffff { "input.is_pegin/null-outpoint" } else { "input.is_pegin" } }
+                                        else if a.asset_issuance != b.asset_issuance { "input.asset_issuance" } else if a.witness != b.witness { "input.witness" }
+                                        else if a.script_sig != b.script_sig { "input.script_sig" } else { "input.sequence" }.to_string();
+                                    let _ = k;
+                                    break;
+                                }
+                            }
+                            for (a, b) in back.output.iter().zip(tx.output.iter()) {
+                                if a != b {
+                                    what = if a.nonce != b.nonce {
+                                        match b.nonce { elements::confidential::Nonce::Explicit(_) => "output.nonce/explicit",
+                                            _ => if b.asset.is_explicit() && b.value.is_explicit() { "output.nonce/confidential-on-explicit-output" } else { "output.nonce/confidential" } }
+                                    } else if a.asset != b.asset { "output.asset" } else if a.value != b.value { "output.value" }
+                                      else if a.witness != b.witness { "output.witness" } else { "output.script" }.to_string();
+                                    break;
+                                }
+                            }
+                        }
+                        let _ = expl_nonce;
+                        bad.push((format!("C08/roundtrip/{}", what), format!("class {}", cls)));
+                    }
+                }
+            }
+            bad
+        });
+        match res {
+            Ok(bad) => for (k, d) in bad { out.viol(&k, case.clone(), d); },
+            Err(p) => out.viol(&format!("C08/panic/{}", last_panic_loc()), case, p),
+        }
+    }
+    out.add("distinct_classes", classes.len() as u64);
+    out.sample(json!({"note": "every well-formed Wire shape: from_tx then extract_tx must return the identical transaction (== and bytes)"}));
+}
